@@ -132,7 +132,11 @@ func (w *Writer) WriteSchema(s *Schema) (err error) {
 func (w *Writer) AddSchema(s *Schema) {
 	if _, ok := w.schemas[s.ID]; !ok {
 		w.schemaIDs = append(w.schemaIDs, s.ID)
-		w.schemas[s.ID] = s
+		// the summary is written at Close from what is kept here: keep a copy, the caller
+		// may reuse its struct and buffer for the next record.
+		kept := *s
+		kept.Data = append([]byte(nil), s.Data...)
+		w.schemas[s.ID] = &kept
 		w.Statistics.SchemaCount++
 	}
 }
@@ -181,7 +185,15 @@ func (w *Writer) WriteChannel(c *Channel) error {
 func (w *Writer) AddChannel(c *Channel) {
 	if _, ok := w.channels[c.ID]; !ok {
 		w.Statistics.ChannelCount++
-		w.channels[c.ID] = c
+		// as for schemas: keep a copy, including the metadata map
+		kept := *c
+		if c.Metadata != nil {
+			kept.Metadata = make(map[string]string, len(c.Metadata))
+			for k, v := range c.Metadata {
+				kept.Metadata[k] = v
+			}
+		}
+		w.channels[c.ID] = &kept
 		w.channelIDs = append(w.channelIDs, c.ID)
 	}
 }
